@@ -67,6 +67,10 @@ Proof. eexists. repeat split; vm_compute; reflexivity. Qed.
    (the returned attached node has the detached x as a child) *)
 Theorem C18_refuted_replace_self_as_child : exists s, run_ok empty_st h_L6 = Some s /\ ~ LInv Hid ct0 s.
 Proof. exact refuted_replace_self_as_child. Qed.
+(* a change below a detach_self'ed node does not reach it, and attach() does not recompute: the re-attached node
+   carries a stale content_id ("changes propagate to all ancestors" fails) *)
+Theorem C18_refuted_attach_stale_content_id : exists s, run_ok empty_st h_L12 = Some s /\ ~ LInv Hid ct0 s.
+Proof. exact refuted_attach_stale_content_id. Qed.
 (* is_ancestor compares nodes with ==: the duplicate of a parent claims the original's child *)
 Theorem C18_refuted_is_ancestor_twin :
   exists s, run_ok empty_st h_L7 = Some s /\
